@@ -81,21 +81,21 @@ def ItemSpec (side : Bool) (fcs tcs : List Item) (s : Script) : Prop :=
   ∃ x y, resolve fcs tcs s = some (x, y) ∧
     (if absent side s.kind then proj (keepS side) (renderEdit true x y s) = []
      else ClosedT (proj (keepS side) (renderEdit true x y s)) ∧
-       ∃ v', ValSim v' (sideItem side (x, y)).val ∧ T (proj (keepS side) (renderEdit true x y s)) = v'.toks)
+       ∃ v', ValPerm v' (sideItem side (x, y)).val ∧ T (proj (keepS side) (renderEdit true x y s)) = v'.toks)
 
 theorem startsPunct_comma (w : Str) : StartsPunct (44 :: w) := ⟨44, w, rfl, by decide⟩
 
 theorem seq_lemma (side : Bool) (fcs tcs : List Item) (subs : List Script)
     (h : ∀ s ∈ subs, ItemSpec side fcs tcs s) :
     ∀ (tr ti : Nat) (first fresh : Bool), Inv side tr ti first fresh →
-      ∃ vs, ValSimL vs ((sideItems side fcs tcs subs).map Item.val) ∧
+      ∃ vs, ValPermL vs ((sideItems side fcs tcs subs).map Item.val) ∧
         ∀ post : Str, StartsPunct post →
           (fresh = false → StartsPunct (proj (keepS side) (renderSubs fcs tcs tr ti first subs) ++ post)) ∧
           T (proj (keepS side) (renderSubs fcs tcs tr ti first subs) ++ post) = toksL vs ++ T post := by
   induction subs with
   | nil =>
     intro tr ti first fresh _
-    refine ⟨[], by simpa [sideItems] using ValSimL.nil, ?_⟩
+    refine ⟨[], by simpa [sideItems] using ValPermL.nil, ?_⟩
     intro post hpost
     simp only [renderSubs, proj_nil, List.nil_append]
     exact ⟨fun _ => hpost, by simp [toksL]⟩
@@ -132,8 +132,8 @@ theorem seq_lemma (side : Bool) (fcs tcs : List Item) (subs : List Script)
         simp [sideItems, habs', hres]
       rw [hitems]
       simp only [habs', Bool.and_false] at ihP
-      have hsim : ValSimL (v' :: vs) ((sideItem side (x, y) :: sideItems side fcs tcs rest).map Item.val) := by
-        simpa using ValSimL.cons hv' hvs
+      have hsim : ValPermL (v' :: vs) ((sideItem side (x, y) :: sideItems side fcs tcs rest).map Item.val) := by
+        simpa using ValPermL.cons hv' hvs
       refine ⟨v' :: vs, hsim, ?_⟩
       intro post hpost
       obtain ⟨ihS, ihT⟩ := ihP post hpost
@@ -151,7 +151,7 @@ theorem seq_lemma (side : Bool) (fcs tcs : List Item) (subs : List Script)
 theorem seq_node (side : Bool) (x y : Item) (o c : Nat) (hb : x.brackets = some (o, c)) (subs : List Script)
     (h : ∀ s ∈ subs, ItemSpec side x.children y.children s) :
     ClosedT (proj (keepS side) (seqWrap x (renderSubs x.children y.children 0 0 true subs))) ∧
-    ∃ vs, ValSimL vs ((sideItems side x.children y.children subs).map Item.val) ∧
+    ∃ vs, ValPermL vs ((sideItems side x.children y.children subs).map Item.val) ∧
       T (proj (keepS side) (seqWrap x (renderSubs x.children y.children 0 0 true subs))) = (Val.seq o c vs).toks := by
   obtain ⟨ho, hc, ho', hc'⟩ := brackets_punct x o c hb
   have hk : keepS side .plain = true := by cases side <;> rfl
